@@ -112,3 +112,58 @@ def sum_form(expr):
     if "wrapping_add" in e: raise ExtractError(f"wrapping sum: {e}")
     if re.fullmatch(r"[\w\.\s\(\)]+(\+[\w\.\s\(\)]+)+", e): return "unchecked"
     raise ExtractError(f"unrecognised sum form: {e}")
+
+
+def test_mod_remove(stripped):
+    """Blank out every `#[cfg(test)] mod … { … }` block (same length), keeping code that follows it
+    (message.rs has its builder and response constructors *after* the test module)."""
+    out = stripped
+    pos = 0
+    while True:
+        m = re.compile(r"#\[cfg\(test\)\]\s*mod\s+\w+\s*\{").search(out, pos)
+        if not m:
+            return out
+        i = out.find("{", m.start())
+        j = match_brace(out, i)
+        out = out[:m.start()] + "".join(ch if ch == "\n" else " " for ch in out[m.start():j]) + out[j:]
+        pos = j
+
+
+def statements2(body):
+    """Like `statements`, but a block statement (`if … { } [else { }]`, `while`, `for`, `loop`, `match`) that
+    ends with `}` at depth 0 is a statement of its own instead of being glued to what follows."""
+    out, depth, cur = [], 0, []
+    i, n = 0, len(body)
+    def flush():
+        t = " ".join("".join(cur).split())
+        if t:
+            out.append(t)
+        cur.clear()
+    while i < n:
+        ch = body[i]
+        if ch in "{([": depth += 1
+        elif ch in "})]": depth -= 1
+        cur.append(ch)
+        if ch == ";" and depth == 0:
+            flush()
+        elif ch == "}" and depth == 0:
+            head = "".join(cur).lstrip()
+            if re.match(r"(if|while|for|loop|match)\b", head):
+                rest = body[i + 1:].lstrip()
+                if not rest.startswith("else") and not rest.startswith(".") and not rest.startswith("?") and not rest.startswith(";"):
+                    flush()
+        i += 1
+    flush()
+    return out
+
+
+def block_after(text, start_regex):
+    """Body of the first `{…}` block following a match of `start_regex` in `text` (None if absent)."""
+    m = re.search(start_regex, text)
+    if not m:
+        return None
+    i = text.find("{", m.end() - 1)
+    if i < 0:
+        return None
+    j = match_brace(text, i)
+    return text[i + 1:j - 1]
